@@ -148,6 +148,29 @@ def rule_collector(ctx, rule):
             cut_ok, cut_detail = False, 'the stream is cancelled without the count having reached the cut-off'
         if len(releases(p)) != 1:
             cut_ok, cut_detail = False, 'cancelling at the cut-off does not release run()'
+    # the count the cut-off is compared with advances by one per element, before the comparison
+    counted = None
+    for n in walk_local(on_next.node):
+        if isinstance(n, ast.Compare) and len(n.ops) == 1 and isinstance(n.ops[0], ast.Eq):
+            for side in (n.left, n.comparators[0]):
+                if isinstance(side, ast.Attribute) and isinstance(side.value, ast.Name) and side.value.id == 'self' \
+                        and 'limit' not in side.attr:
+                    counted = side.attr
+    if counted is None:
+        cut_ok, cut_detail = False, cut_detail or 'the cut-off is not compared with a running count'
+    else:
+        for p in ps:
+            incs = [e for e in p.events if e.kind == 'store' and e.data['target'][0] == 'attr' and
+                    e.data['target'][2] == counted]
+            good = [e for e in incs if e.data.get('aug') == 'Add' and e.data['value'].is_const() and
+                    e.data['value'].const == 1 or
+                    strip_epoch(e.data['value'].term) in (('op', 'Add', ('attr', ('self',), counted), ('const', 1)),
+                                                          ('op', 'Add', ('const', 1), ('attr', ('self',), counted)))]
+            cmps = [e for e in p.events if e.kind == 'cond' and counted in repr(e.data['key'])]
+            if len(incs) != 1 or len(good) != 1:
+                cut_ok, cut_detail = False, 'self.%s does not advance by exactly 1 per element' % counted
+            elif cmps and cmps[0].seq < incs[0].seq:
+                cut_ok, cut_detail = False, 'the count is compared with the cut-off before this element is counted'
     rep.add(rule, 'CollectorSubscriber.on_next / cut-off cancels at equality only and releases the waiter', on_next,
             cut_ok and n_cut > 0, cut_detail or 'cancel() only behind an equality test of the running count, followed '
                                                 'by self.%s.set() (%d paths)' % (event, n_cut))
